@@ -265,4 +265,385 @@ theorem readUnicodeString_value (s : Str) (pw pr : Nat) (bs pre post : BL) (hn :
     omega
   · cases hw
 
+/-! ### `write_pascal_string` / `read_pascal_string` -/
+
+/-- Layout of a written Pascal string with encoded payload `data`. -/
+def pascalLayout (data : BL) (pad : Nat) : BL :=
+  UInt8.ofNat data.length :: data ++ List.replicate (padLen (1 + data.length) pad) 0
+
+theorem pascalLayout_length (data : BL) (pad : Nat) :
+    (pascalLayout data pad).length = 1 + data.length + padLen (1 + data.length) pad := by
+  simp [pascalLayout]; omega
+
+/-- The writer succeeds exactly when the string is encodable within 255 bytes (and the
+padding is not 0), and then emits the whole encoded string: nothing is truncated. -/
+theorem writePascalString_eq (e : Encoding) (s : Str) (pad : Nat) (bs : BL) :
+    writePascalString e s pad = .ok bs ↔
+      ∃ data, e.encode s = some data ∧ data.length ≤ 255 ∧ pad ≠ 0 ∧ bs = pascalLayout data pad := by
+  unfold writePascalString writeU8 writePadding pascalLayout
+  cases he : e.encode s with
+  | none => simp
+  | some data =>
+    by_cases h1 : data.length < 256 <;> by_cases h2 : pad = 0 <;>
+      simp [h1, h2, eq_comm, Nat.add_comm] <;> omega
+
+theorem writePascalString_err (e : Encoding) (s : Str) (pad : Nat) (er : Err) :
+    writePascalString e s pad = .error er ↔
+      (e.encode s = none ∧ er = .unicodeError)
+      ∨ (∃ data, e.encode s = some data ∧ 255 < data.length ∧ er = .structError)
+      ∨ (∃ data, e.encode s = some data ∧ data.length ≤ 255 ∧ pad = 0 ∧ er = .other) := by
+  unfold writePascalString writeU8 writePadding
+  cases he : e.encode s with
+  | none => simp [eq_comm]
+  | some data =>
+    by_cases h1 : data.length < 256
+    · have h3 : ¬ 255 < data.length := by omega
+      have h4 : data.length ≤ 255 := by omega
+      by_cases h2 : pad = 0 <;> simp [h1, h2, h3, h4, eq_comm]
+    · have h3 : 255 < data.length := by omega
+      have h4 : ¬ data.length ≤ 255 := by omega
+      by_cases h2 : pad = 0 <;> simp [h1, h2, h3, h4, eq_comm]
+
+/-- The reader on a written Pascal string, up to the decoding step. -/
+theorem readPascalString_layout (e : Encoding) (data : BL) (pad : Nat) (pre post : BL)
+    (hlen : data.length ≤ 255) (hp : pad ≠ 0) :
+    readPascalString e (pre ++ pascalLayout data pad ++ post) pre.length pad
+      = match e.decode data with
+        | none => .error .unicodeError
+        | some s => .ok (s, pre.length + (pascalLayout data pad).length) := by
+  unfold readPascalString
+  generalize hd : pre ++ pascalLayout data pad ++ post = d
+  have e1 : d = pre ++ ([UInt8.ofNat data.length] ++ (data ++ List.replicate (padLen (1 + data.length) pad) 0 ++ post)) := by
+    simp [← hd, pascalLayout, List.append_assoc]
+  have r1 : readU8 d pre.length = .ok (data.length, pre.length + 1) := by
+    rw [e1]; exact readU8_append pre _ data.length (by omega)
+  have e2 : d = (pre ++ [UInt8.ofNat data.length]) ++ (data ++ (List.replicate (padLen (1 + data.length) pad) 0 ++ post)) := by
+    simp [e1, List.append_assoc]
+  have r2 : slice d (pre.length + 1) data.length = data := by
+    have hl : pre.length + 1 = (pre ++ [UInt8.ofNat data.length]).length := by simp
+    rw [e2, hl]
+    exact slice_append _ data _
+  have e3 : d = (pre ++ [UInt8.ofNat data.length] ++ data) ++ (List.replicate (padLen (1 + data.length) pad) 0 ++ post) := by
+    simp [e1, List.append_assoc]
+  have r3 : readPadding d (pre.length + 1 + data.length) (pre.length + 1 + data.length - pre.length) pad
+      = .ok (pre.length + 1 + data.length + padLen (1 + data.length) pad) := by
+    have hl : pre.length + 1 + data.length = (pre ++ [UInt8.ofNat data.length] ++ data).length := by simp; omega
+    have hs : pre.length + 1 + data.length - pre.length = 1 + data.length := by omega
+    rw [hs, e3, hl]
+    exact readPadding_append _ post _ pad hp
+  rw [r1]
+  simp only [r2, r3, ne_eq, not_true_eq_false, if_false, pascalLayout_length]
+  cases e.decode data with
+  | none => rfl
+  | some s => simp only; congr 2; omega
+
+/-- `rt` law of the Pascal string codec: needs the codec law on this string only. -/
+theorem readPascalString_write (e : Encoding) (s : Str) (pad : Nat) (bs pre post : BL)
+    (hl : ∀ b, e.encode s = some b → e.decode b = some s)
+    (hw : writePascalString e s pad = .ok bs) :
+    readPascalString e (pre ++ bs ++ post) pre.length pad = .ok (s, pre.length + bs.length) := by
+  obtain ⟨data, he, hlen, hp, rfl⟩ := (writePascalString_eq e s pad bs).mp hw
+  rw [readPascalString_layout e data pad pre post hlen hp, hl data he]
+
+/-! ### concrete codecs satisfy the codec law -/
+
+theorem charmap_lawful (table : List Nat) : (charmap table).Lawful := by
+  intro s
+  induction s with
+  | nil =>
+    intro b hb
+    simp [charmap] at hb
+    subst hb
+    simp [charmap]
+  | cons c r ih =>
+    intro b hb
+    simp only [charmap, List.mapM_cons, bind, Option.bind_eq_some_iff] at hb
+    obtain ⟨x, hx, bs, hbs, hb⟩ := hb
+    simp at hb
+    subst hb
+    have ih' := ih bs (by simpa [charmap] using hbs)
+    simp only [charmap] at ih' ⊢
+    split at hx
+    · rename_i hi
+      simp at hx
+      subst hx
+      have hmod : (UInt8.ofNat (List.idxOf c table)).toNat = List.idxOf c table := by
+        rw [toNat_ofNat]; omega
+      simp [List.mapM_cons, hmod, ih']
+      have hg : table[List.idxOf c table]? = some c := by
+        rw [List.getElem?_eq_getElem hi.1]
+        simp [List.getElem_idxOf]
+      simp [hg]
+    · cases hx
+
+theorem utf8Dec_encChar (c : Nat) (a rest : BL) (h : utf8EncChar c = some a) :
+    utf8Dec (a ++ rest) = (utf8Dec rest).map (c :: ·) := by
+  unfold utf8EncChar at h
+  split at h
+  · rename_i h1
+    simp only [Option.some.injEq] at h; subst h
+    have t0 : (UInt8.ofNat c).toNat = c := by rw [toNat_ofNat]; omega
+    simp only [List.cons_append, List.nil_append]
+    rw [utf8Dec.eq_def]
+    simp only [t0, h1, if_true]
+  · split at h
+    · rename_i h1 h2
+      simp only [Option.some.injEq] at h; subst h
+      have t0 : (UInt8.ofNat (0xC0 + c / 64)).toNat = 0xC0 + c / 64 := by rw [toNat_ofNat]; omega
+      have t1 : (UInt8.ofNat (0x80 + c % 64)).toNat = 0x80 + c % 64 := by rw [toNat_ofNat]; omega
+      simp only [List.cons_append, List.nil_append]
+      rw [utf8Dec.eq_def]
+      have c1 : ¬ (0xC0 + c / 64 < 0x80) := by omega
+      have c2 : ¬ (0xC0 + c / 64 < 0xC2) := by omega
+      have c3 : 0xC0 + c / 64 < 0xE0 := by omega
+      have c4 : isCont (UInt8.ofNat (0x80 + c % 64)) := by unfold isCont; rw [t1]; omega
+      have c5 : (0xC0 + c / 64 - 0xC0) * 64 + (0x80 + c % 64 - 0x80) = c := by omega
+      simp only [t0, t1, c1, c2, c3, c4, c5, if_true, if_false]
+    · split at h
+      · cases h
+      · split at h
+        · rename_i h1 h2 h3 h4
+          simp only [Option.some.injEq] at h; subst h
+          have t0 : (UInt8.ofNat (0xE0 + c / 4096)).toNat = 0xE0 + c / 4096 := by rw [toNat_ofNat]; omega
+          have t1 : (UInt8.ofNat (0x80 + c / 64 % 64)).toNat = 0x80 + c / 64 % 64 := by rw [toNat_ofNat]; omega
+          have t2 : (UInt8.ofNat (0x80 + c % 64)).toNat = 0x80 + c % 64 := by rw [toNat_ofNat]; omega
+          simp only [List.cons_append, List.nil_append]
+          rw [utf8Dec.eq_def]
+          have c1 : ¬ (0xE0 + c / 4096 < 0x80) := by omega
+          have c2 : ¬ (0xE0 + c / 4096 < 0xC2) := by omega
+          have c3 : ¬ (0xE0 + c / 4096 < 0xE0) := by omega
+          have c3' : 0xE0 + c / 4096 < 0xF0 := by omega
+          have c4 : isCont (UInt8.ofNat (0x80 + c / 64 % 64)) := by unfold isCont; rw [t1]; omega
+          have c4' : isCont (UInt8.ofNat (0x80 + c % 64)) := by unfold isCont; rw [t2]; omega
+          have c5 : ((0xE0 + c / 4096 - 0xE0) * 64 + (0x80 + c / 64 % 64 - 0x80)) * 64 + (0x80 + c % 64 - 0x80) = c := by omega
+          have c6 : 0x800 ≤ c := by omega
+          have c7 : ¬ (0xD800 ≤ c ∧ c < 0xE000) := h3
+          simp only [t0, t1, t2, c1, c2, c3, c3', c4, c4', c5, c6, c7, if_true, if_false, and_self, not_false_eq_true]
+        · split at h
+          · rename_i h1 h2 h3 h4 h5
+            simp only [Option.some.injEq] at h; subst h
+            have t0 : (UInt8.ofNat (0xF0 + c / 262144)).toNat = 0xF0 + c / 262144 := by rw [toNat_ofNat]; omega
+            have t1 : (UInt8.ofNat (0x80 + c / 4096 % 64)).toNat = 0x80 + c / 4096 % 64 := by rw [toNat_ofNat]; omega
+            have t2 : (UInt8.ofNat (0x80 + c / 64 % 64)).toNat = 0x80 + c / 64 % 64 := by rw [toNat_ofNat]; omega
+            have t3 : (UInt8.ofNat (0x80 + c % 64)).toNat = 0x80 + c % 64 := by rw [toNat_ofNat]; omega
+            simp only [List.cons_append, List.nil_append]
+            rw [utf8Dec.eq_def]
+            have c1 : ¬ (0xF0 + c / 262144 < 0x80) := by omega
+            have c2 : ¬ (0xF0 + c / 262144 < 0xC2) := by omega
+            have c3 : ¬ (0xF0 + c / 262144 < 0xE0) := by omega
+            have c3' : ¬ (0xF0 + c / 262144 < 0xF0) := by omega
+            have c3'' : 0xF0 + c / 262144 < 0xF5 := by omega
+            have c4 : isCont (UInt8.ofNat (0x80 + c / 4096 % 64)) := by unfold isCont; rw [t1]; omega
+            have c4' : isCont (UInt8.ofNat (0x80 + c / 64 % 64)) := by unfold isCont; rw [t2]; omega
+            have c4'' : isCont (UInt8.ofNat (0x80 + c % 64)) := by unfold isCont; rw [t3]; omega
+            have c5 : (((0xF0 + c / 262144 - 0xF0) * 64 + (0x80 + c / 4096 % 64 - 0x80)) * 64 + (0x80 + c / 64 % 64 - 0x80)) * 64 + (0x80 + c % 64 - 0x80) = c := by omega
+            have c6 : 0x10000 ≤ c := by omega
+            simp only [t0, t1, t2, t3, c1, c2, c3, c3', c3'', c4, c4', c4'', c5, c6, h5, if_true, if_false, and_self]
+          · cases h
+
+theorem utf8_lawful : utf8.Lawful := by
+  intro s
+  induction s with
+  | nil => intro b hb; simp [utf8, utf8Enc] at hb; subst hb; simp [utf8, utf8Dec]
+  | cons c r ih =>
+    intro b hb
+    simp only [utf8] at hb ih ⊢
+    unfold utf8Enc at hb
+    split at hb
+    · rename_i a b' ha hb'
+      simp only [Option.some.injEq] at hb; subst hb
+      rw [utf8Dec_encChar c a b' ha, ih b' hb']; rfl
+    · cases hb
+
+/-! ### the specification (Unicode Standard) and the code's UTF-16 -/
+
+section SpecLemmas
+open Spec
+
+theorem spec_utf16_roundtrip (s : Str) (h : ∀ c ∈ s, Scalar c) : utf16Dec (utf16Enc s) = some s := by
+  induction s with
+  | nil => rfl
+  | cons c r ih =>
+    have hc : Scalar c := h c (by simp)
+    have ih' := ih (fun v hv => h v (by simp [hv]))
+    unfold Scalar at hc
+    unfold utf16Enc utf16EncChar
+    split
+    · rename_i h1
+      simp only [List.cons_append, List.nil_append]
+      rw [utf16Dec.eq_def]
+      have c1 : c < 0xD800 ∨ (0xE000 ≤ c ∧ c < 0x10000) := by omega
+      simp only [c1, if_true, ih', Option.map_some]
+    · rename_i h1
+      simp only [List.cons_append, List.nil_append]
+      rw [utf16Dec.eq_def]
+      have c1 : ¬ (0xD800 + (c / 65536 - 1) * 64 + c / 1024 % 64 < 0xD800 ∨
+          (0xE000 ≤ 0xD800 + (c / 65536 - 1) * 64 + c / 1024 % 64 ∧ 0xD800 + (c / 65536 - 1) * 64 + c / 1024 % 64 < 0x10000)) := by omega
+      have c2 : 0xD800 ≤ 0xD800 + (c / 65536 - 1) * 64 + c / 1024 % 64 ∧ 0xD800 + (c / 65536 - 1) * 64 + c / 1024 % 64 < 0xDC00 := by omega
+      have c3 : 0xDC00 ≤ 0xDC00 + c % 1024 ∧ 0xDC00 + c % 1024 < 0xE000 := by omega
+      have c4 : ((0xD800 + (c / 65536 - 1) * 64 + c / 1024 % 64 - 0xD800) / 64 + 1) * 65536
+          + (0xD800 + (c / 65536 - 1) * 64 + c / 1024 % 64 - 0xD800) % 64 * 1024 + (0xDC00 + c % 1024 - 0xDC00) = c := by omega
+      simp only [c1, c2, c3, c4, if_true, if_false, ih', Option.map_some, and_self]
+
+theorem encUnits_eq_spec (s : Str) (h : ∀ c ∈ s, Scalar c) : encUnits s = utf16Enc s := by
+  induction s with
+  | nil => rfl
+  | cons c r ih =>
+    have hc : Scalar c := h c (by simp)
+    have ih' := ih (fun v hv => h v (by simp [hv]))
+    unfold Scalar at hc
+    unfold encUnits utf16Enc utf16EncChar
+    split
+    · simp [ih']
+    · rename_i h1
+      have e1 : 0xD800 + (c - 0x10000) / 0x400 = 0xD800 + (c / 65536 - 1) * 64 + c / 1024 % 64 := by omega
+      have e2 : 0xDC00 + (c - 0x10000) % 0x400 = 0xDC00 + c % 1024 := by omega
+      rw [e1, e2, ih']; rfl
+
+theorem decUnits_of_spec (us : List Nat) (s : Str) (h : utf16Dec us = some s) : decUnits us = s := by
+  fun_induction utf16Dec us generalizing s with
+  | case1 => simp at h; subst h; rfl
+  | case2 u r hu ih =>
+    cases hr : utf16Dec r with
+    | none => simp [hr] at h
+    | some s' =>
+      simp [hr] at h; subst h
+      have := ih s' hr
+      subst this
+      cases r with
+      | nil => simp [decUnits]
+      | cons v r' =>
+        rw [decUnits]
+        have : ¬ (isHigh u ∧ isLow v) := by unfold isHigh; omega
+        simp [this]
+  | case3 u hnf hh v r' hl wwww hi6 lo10 ih =>
+    cases hr : utf16Dec r' with
+    | none => simp [hr] at h
+    | some s' =>
+      simp [hr] at h; subst h
+      have := ih s' hr
+      subst this
+      rw [decUnits]
+      have hp : isHigh u ∧ isLow v := ⟨hh, hl⟩
+      simp only [hp, and_self, if_true]
+      refine congrArg (· :: decUnits r') ?_
+      simp only [wwww, hi6, lo10]
+      omega
+  | case4 => simp at h
+  | case5 => simp at h
+  | case6 => simp at h
+
+theorem scalar_pyStr (s : Str) (h : ∀ c ∈ s, Scalar c) : PyStr s := by
+  intro c hc
+  have := h c hc
+  unfold Scalar at this
+  omega
+
+theorem scalar_noPair (s : Str) (h : ∀ c ∈ s, Scalar c) : NoPair s := by
+  induction s with
+  | nil => trivial
+  | cons a r ih =>
+    cases r with
+    | nil => trivial
+    | cons b r' =>
+      refine ⟨?_, ih (fun v hv => h v (by simp [hv]))⟩
+      have := h a (by simp)
+      unfold Scalar at this
+      unfold isHigh
+      omega
+
+end SpecLemmas
+
+/-! ### the layer name path -/
+
+theorem encUnits_length_le (s : Str) : (encUnits s).length ≤ 2 * s.length := by
+  induction s with
+  | nil => simp [encUnits]
+  | cons c r ih => unfold encUnits; split <;> simp <;> omega
+
+theorem writeUnicodeString_ok (s : Str) (pad : Nat) (hs : PyStr s) (hp : pad ≠ 0) (hlen : (encUnits s).length < 4294967296) :
+    writeUnicodeString s pad = .ok (unitsLayout (encUnits s) pad) := by
+  unfold writeUnicodeString
+  rw [if_pos hs]
+  exact (writeUnits_eq _ _ _).mpr ⟨hlen, hp, rfl⟩
+
+/-- What `_legacy_name` returns is always writable when `'?'` is. -/
+theorem legacyName_encodable (e : Encoding) (r : NameRec) (v : Str) (hl : r.luni = some v)
+    (hq : ∃ b, e.encode [0x3F] = some b ∧ b.length ≤ 255) :
+    ∃ b, e.encode (legacyName e r) = some b ∧ b.length ≤ 255 := by
+  unfold legacyName
+  rw [hl]
+  simp only
+  cases hb : e.encode r.legacy with
+  | none => simpa using hq
+  | some b =>
+    simp only
+    split
+    · exact hq
+    · exact ⟨b, hb, by omega⟩
+
+theorem name_roundtrip (mac e : Encoding) (he : e.Lawful)
+    (hq : ∃ b, e.encode [0x3F] = some b ∧ b.length ≤ 255)
+    (value : Str) (hs : PyStr value) (hn : NoPair value) (hlen : value.length < 256) (r0 : NameRec) :
+    ∃ r1 lb ub, setName mac value r0 = .ok r1 ∧ writeName e r1 = .ok (lb, some ub) ∧
+      ∀ pre post, ∃ r2, readName e (pre ++ lb ++ post) pre.length (some ub) = .ok (r2, pre.length + lb.length)
+        ∧ r2.luni = some value ∧ getName r2 = value := by
+  have hset : setName mac value r0 = .ok { legacy := if (mac.encode value).isSome then value else [0x3F], luni := some value } := by
+    unfold setName; rw [if_pos hlen]
+  generalize hr1 : ({ legacy := if (mac.encode value).isSome then value else [0x3F], luni := some value } : NameRec) = r1 at hset
+  have hl1 : r1.luni = some value := by rw [← hr1]
+  obtain ⟨b, hb, hbl⟩ := legacyName_encodable e r1 value hl1 hq
+  have hwp : writePascalString e (legacyName e r1) 4 = .ok (pascalLayout b 4) :=
+    (writePascalString_eq _ _ _ _).mpr ⟨b, hb, hbl, by decide, rfl⟩
+  have hul : (encUnits value).length < 4294967296 := by
+    have := encUnits_length_le value; omega
+  have hwu := writeUnicodeString_ok value 4 hs (by decide) hul
+  refine ⟨r1, pascalLayout b 4, unitsLayout (encUnits value) 4, hset, ?_, ?_⟩
+  · unfold writeName
+    rw [hwp]; simp only [hl1, hwu]
+  · intro pre post
+    have hrp := readPascalString_write e (legacyName e r1) 4 _ pre post (fun b' hb' => he _ _ hb') hwp
+    obtain ⟨p, hru, _⟩ := readUnicodeString_value value 4 1 _ [] [] hn (by decide) hwu
+    simp only [List.nil_append, List.append_nil, List.length_nil] at hru
+    refine ⟨{ legacy := legacyName e r1, luni := some value }, ?_, rfl, rfl⟩
+    unfold readName
+    rw [hrp]; simp only [hru]
+
+/-- Without the unicode block nothing is substituted: an unencodable legacy name is an error. -/
+theorem writeName_no_block (e : Encoding) (r : NameRec) (h : r.luni = none) :
+    writeName e r = match writePascalString e r.legacy 4 with
+      | .error er => .error er
+      | .ok lb => .ok (lb, none) := by
+  unfold writeName legacyName
+  rw [h]
+  cases writePascalString e r.legacy 4 <;> rfl
+
+theorem decUnits_pyStr (us : List Nat) (h : ∀ u ∈ us, u < 65536) : PyStr (decUnits us) := by
+  fun_induction decUnits us with
+  | case1 => intro c hc; cases hc
+  | case2 u =>
+    intro c hc
+    have := h u (by simp)
+    simp at hc; omega
+  | case3 u v r hp ih =>
+    have ih' := ih (fun w hw => h w (by simp [hw]))
+    intro c hc
+    simp only [List.mem_cons] at hc
+    rcases hc with h1 | h1
+    · unfold isHigh isLow at hp; omega
+    · exact ih' c h1
+  | case4 u v r hp ih =>
+    have ih' := ih (fun w hw => h w (by simp [hw]))
+    intro c hc
+    simp only [List.mem_cons] at hc
+    rcases hc with h1 | h1
+    · have := h u (by simp); omega
+    · exact ih' c h1
+
+/-- Writing back what was decoded from units `us` writes `us`. -/
+theorem writeUnicodeString_decUnits (us : List Nat) (pad : Nat) (h : ∀ u ∈ us, u < 65536) :
+    writeUnicodeString (decUnits us) pad = writeUnits us pad := by
+  unfold writeUnicodeString
+  rw [if_pos (decUnits_pyStr us h), encUnits_decUnits us h]
+
 end PsdVerif.Unicode
